@@ -5,6 +5,7 @@ import (
 	"go/types"
 	"regexp"
 	"sort"
+	"strconv"
 	"strings"
 
 	"golang.org/x/tools/go/ssa"
@@ -428,9 +429,11 @@ func T6(rc *RC) {
 }
 
 // TMask: the physical transpose moves the mask together with the data: denseTranspose calls
-// transposeMask before dispatching on the element width (in whichever build is loaded).
+// transposeMask before dispatching on the element width (in whichever build is loaded). The
+// string kernel is a data kernel like the others: a string tensor can carry a mask (finding 88 -
+// the rule used to exempt it, which was the rule's mistake).
 func TMask(rc *RC) {
-	rc.S.Declare("TMask", "mask travels with data: denseTranspose calls transposeMask before the per-width data movement", 1)
+	rc.S.Declare("TMask", "mask travels with data: on every path of denseTranspose that calls a data kernel (string kernel included) transposeMask was called before", 1)
 	fi := anchor(rc, "TMask", "tensor.(StdEng).denseTranspose")
 	if fi == nil {
 		return
@@ -450,7 +453,7 @@ func TMask(rc *RC) {
 			if strings.Contains(st.Head, "$r.transposeMask(") && masked < 0 {
 				masked = i
 			}
-			if strings.Contains(st.Head, "$r.denseTranspose") && !strings.Contains(st.Head, "String") && moved < 0 {
+			if strings.Contains(st.Head, "$r.denseTranspose") && moved < 0 {
 				moved = i
 			}
 		}
@@ -480,6 +483,93 @@ func TMask(rc *RC) {
 var t13SameAxis = regexp.MustCompile(`^%strides\[([^\]]+)\] = (?:\$r\.strides|%currentStride)\[([^\]]+)\]$`)
 
 var t13ByAxes = regexp.MustCompile(`(?:hape|trides)\w*\[[^\]]+\] = [^\n]*\$axes\[`)
+
+var (
+	t13RankAtom  = regexp.MustCompile(`^\((\d+) == (?:len\(\$r\.shape\)|\$r\.Dims\(\)|%dims|len\(\$axes\))\)$|^\((?:len\(\$r\.shape\)|\$r\.Dims\(\)|%dims|len\(\$axes\)) == (\d+)\)$`)
+	t13AxisAtom  = regexp.MustCompile(`^\(\$axes\[(\d+)\] == (\d+)\)$|^\((\d+) == \$axes\[(\d+)\]\)$`)
+	t13ElemStore = regexp.MustCompile(`^%(shape|strides)\[(\d+)\]$`)
+	t13ElemSrc   = regexp.MustCompile(`^(?:\$r\.|%current)(?:shape|strides|Shape|Stride)\[(\d+)\]$`)
+)
+
+// t13Pinned returns the permutation when the path's guards determine the rank and every axis.
+func t13Pinned(f []*ir.BExpr) []int {
+	n := -1
+	axes := map[int]int{}
+	for _, g := range f {
+		for _, a := range g.Atoms() {
+			if !ir.Implies(f, ir.BAtom(a)) {
+				continue
+			}
+			if m := t13RankAtom.FindStringSubmatch(a); m != nil {
+				v := m[1] + m[2]
+				n, _ = strconv.Atoi(v)
+			}
+			if m := t13AxisAtom.FindStringSubmatch(a); m != nil {
+				if m[1] != "" {
+					k, _ := strconv.Atoi(m[1])
+					c, _ := strconv.Atoi(m[2])
+					axes[k] = c
+				} else {
+					k, _ := strconv.Atoi(m[4])
+					c, _ := strconv.Atoi(m[3])
+					axes[k] = c
+				}
+			}
+		}
+	}
+	if n < 1 {
+		return nil
+	}
+	perm := make([]int, n)
+	for k := 0; k < n; k++ {
+		c, ok := axes[k]
+		if !ok || c < 0 || c >= n {
+			return nil
+		}
+		perm[k] = c
+	}
+	return perm
+}
+
+// t13StoresAgainst compares the element stores of the path with the pinned permutation.
+func t13StoresAgainst(p ir.Path, perm []int) string {
+	seen := 0
+	check := func(target, value string) string {
+		mt := t13ElemStore.FindStringSubmatch(target)
+		ms := t13ElemSrc.FindStringSubmatch(value)
+		if mt == nil || ms == nil {
+			return ""
+		}
+		i, _ := strconv.Atoi(mt[2])
+		j, _ := strconv.Atoi(ms[1])
+		seen++
+		if i < len(perm) && perm[i] != j {
+			return fmt.Sprintf("it stores %s = %s where the axes ask for element %d", target, value, perm[i])
+		}
+		return ""
+	}
+	for _, st := range p.Steps {
+		switch st.Kind {
+		case "store", "let":
+			if w := check(st.Target, st.Value); w != "" {
+				return w
+			}
+		case "tuple":
+			vals := splitArgs(strings.TrimSuffix(strings.TrimPrefix(st.Value, "("), ")"))
+			if len(vals) == len(st.Targets) {
+				for i := range vals {
+					if w := check(st.Targets[i], vals[i]); w != "" {
+						return w
+					}
+				}
+			}
+		}
+	}
+	if seen < 2*len(perm) {
+		return "it does not store every element of shape and strides from the source pattern"
+	}
+	return ""
+}
 
 func T13(rc *RC) {
 	rc.S.Declare("T13", "AP.T: no bare return with neither an error nor a built pattern; the vector branch derives the transposed strides from the source's strides, not from constants alone; the general branch permutes by the requested axes (UnsafePermute or stores indexed by them) on every path", 3)
@@ -535,6 +625,17 @@ func T13(rc *RC) {
 				}
 				if strings.Contains(txt, "UnsafePermute(") || t13ByAxes.MatchString(txt) {
 					consults = true
+				}
+			}
+			if builds && !consults {
+				// a special case whose guards pin the rank and every axis (dims == 2, axes == (1, 0))
+				// needs no consulting: its stores are compared with the permutation the guards name
+				if perm := t13Pinned(f); perm != nil {
+					if wrong := t13StoresAgainst(p, perm); wrong != "" {
+						notPermuted = append(notPermuted, fmt.Sprintf("the path [%s] is taken for the axes %v only, and %s", strings.Join(p.Guards, " && "), perm, wrong))
+					}
+					general++
+					continue
 				}
 			}
 			if builds {
